@@ -45,7 +45,7 @@ REAL_VS_STUB = {
     'stub_or_simulator_owned': ['flatten/unflatten callables', 'warnings filters + showwarning hook', 'metaclass hooks',
                                 'operation / fault history (choice tape)'],
 }
-EXPECTED_PROBES = ('run-under-insertion-order', 'dataclass-retry-after-failure', 'op:register', 'op:unregister', 'op:register_class', 'op:dataclass', 'fault:arg', 'fault:warn-error',
+EXPECTED_PROBES = ('adjacent-lookup', 'run-under-insertion-order', 'dataclass-retry-after-failure', 'op:register', 'op:unregister', 'op:register_class', 'op:dataclass', 'fault:arg', 'fault:warn-error',
                    'fault:showwarning-raise', 'fault:hook-raise', 'outcome:ok', 'outcome:raised', 'atomicity-checked',
                    'shadowing-observed')
 
@@ -430,7 +430,16 @@ def _run_body(job, io, tape):
                         probes['class-hash-raised-inside-optree'] += 1
                         raise inj  # for the duration of this call the class is not hashable
                 U.HOOK = hook
-            # ---- what does the model say will happen?
+            # ---- the very last thing the engine is asked before the call is about THIS (class, namespace) -- a lookup memo keyed
+            # on "same question as last time" is then still warm when the call changes the answer
+            if isinstance(cls, type) and cls in instances and instances[cls] is not None and isinstance(ns_arg, str) or ns_arg is GLOBAL:
+                adj_ns = '' if ns_arg is GLOBAL else str(ns_arg)
+                if adj_ns != '' or ns_arg is GLOBAL:
+                    try:
+                        for nil_ in (False, True):
+                            optree.tree_is_leaf(instances.get(cls), namespace=adj_ns, none_is_leaf=nil_)
+                    except Exception:  # noqa: BLE001
+                        pass
             if opk in ('register', 'register_class'):
                 will_warn = isinstance(cls, type) and is_nt_like(cls)
                 if expect_exc is None:
@@ -560,6 +569,21 @@ def _run_body(job, io, tape):
             elif isinstance(raised, SystemError):
                 viol('wrong-exception', site, '%s raised SystemError: %s' % (opk, raised))
         oplog.append('%s(%s,%s)%s->%s' % (opk, getattr(cls, '__name__', cls), nsname, '[%s]' % fault if fault else '', outcome))
+        # ... and the very first thing it is asked after the call is the same question
+        if isinstance(cls, type) and cls in instances and instances[cls] is not None and cls not in MARKERS and (key_ns is None or isinstance(key_ns, str)):
+            adj_ns = '' if key_ns is None else key_ns
+            probes['adjacent-lookup'] += 1
+            for nil_ in (False, True):
+                try:
+                    got_leaf = optree.tree_is_leaf(instances[cls], namespace=adj_ns, none_is_leaf=nil_)
+                except Exception as e:  # noqa: BLE001
+                    viol('observe-raised', site, 'tree_is_leaf right after the call raised %s: %s' % (type(e).__name__, e))
+                    break
+                want_kind_, _f = expected_kind(model, cls, adj_ns, nil_)
+                if got_leaf != (want_kind_ == KIND.LEAF):
+                    viol('behaviour-mismatch', site, 'the first lookup after %s(%s, namespace=%s) says %s is %sa leaf in %r (none_is_leaf=%s); the model says kind %s' % (
+                        opk, cls.__name__, nsname, cls.__name__, '' if got_leaf else 'NOT ', adj_ns, nil_, want_kind_))
+                    break
         after_vec = observe(model, types, instances, all_funcs, viol, site, probes)
         if raised is not None:
             probes['atomicity-checked'] += 1
